@@ -2,9 +2,57 @@
    Property theorems only (Run/ExecTheorems.v), pinned by Check, followed by Print Assumptions. *)
 From Coq Require Import ZArith String.
 From ApolloVerif Require Import Base.Chars Ast.Ast Schema.Model Run.Json Run.Coerce Run.TypedDoc Run.Prog
-  Run.Execute Run.ExecTop Run.RefExecute Run.ExecKnown Run.ExecTheorems.
+  Run.Execute Run.ExecTop Run.RefExecute Run.ExecKnown Run.ExecProofs Run.ExecTheorems.
 Local Open Scope string_scope.
 Local Open Scope list_scope.
+
+(* C26_nonnull, for ANY resolver world and every request that gets a response:
+   the data is shaped by the operation's selection set on the root type (ExecProofs.shape / shape_obj /
+   shape_fields): exactly the collected response keys in order (minus fields undefined on the object type or skipped
+   by the resolver), a JSON array per list wrapper of the field type, leaves accepted by result coercion, objects
+   shaped by the merged sub-selections on a concrete object type allowed at that position, and null only where the
+   selection's field type (`field.ty()`) — or the field's type on the object type — is nullable;
+   and data = null comes with at least one field error (one direction of "data is null exactly when a null
+   propagates to the root").
+   NOT proved here (checked by the tie on every generated case, outside the known class): equality with the
+   reference executor of Run/RefExecute.v (C26_eq_reference), the full statement about error paths, the converse
+   direction of data_null_iff, and that the fuel ex_fuel_for always suffices (the statement is about requests whose
+   outcome is a response; the model runner reports out-of-fuel as a machinery error and never did). *)
+Theorem C26_nonnull_partial : forall s doc values w d vars root impls r log,
+  execute_prepare s doc values = EpReady d vars root impls ->
+  execute_request s doc values w = (EoResponse r, log) ->
+  (forall m, er_data r = Some m -> shape_obj (ex_cx_for s d vars) root impls (rd_sels d) m) /\
+  (er_data r = None -> er_errors r <> []).
+Proof. exact c26_nonnull. Qed.
+Check C26_nonnull_partial : forall s doc values w d vars root impls r log,
+  execute_prepare s doc values = EpReady d vars root impls ->
+  execute_request s doc values w = (EoResponse r, log) ->
+  (forall m, er_data r = Some m -> shape_obj (ex_cx_for s d vars) root impls (rd_sels d) m) /\
+  (er_data r = None -> er_errors r <> []).
+Print Assumptions C26_nonnull_partial.
+
+(* the invariant behind it, for every executor function and every fuel: the result value has the shape of its
+   type and selections, old errors are kept, every new error's path extends the position being executed, and a
+   propagated null always comes with an error *)
+Theorem C26_invariant : forall w cx fuel,
+  P_selset w cx fuel /\ P_field w cx fuel /\ P_complete w cx fuel /\ P_list w cx fuel.
+Proof. exact inv_all. Qed.
+Check C26_invariant : forall w cx fuel,
+  P_selset w cx fuel /\ P_field w cx fuel /\ P_complete w cx fuel /\ P_list w cx fuel.
+Print Assumptions C26_invariant.
+
+(* non-vacuity: a request with nested selections, a list of non-null items with a null item (the list becomes
+   null), a wrongly typed leaf at a non-null field (the parent becomes null), __typename; the reference executor
+   gives the same response *)
+Example C26_nonvacuous :
+  (exists d vars root impls, execute_prepare x_nv_schema x_nv_doc [] = EpReady d vars root impls) /\
+  fst (execute_request x_nv_schema x_nv_doc [] x_nv_world) =
+    EoResponse {| er_data := Some [(xs "a", JObj [(xs "n", JInt 1); (xs "l", JNull)]); (xs "b", JNull);
+                                   (xs "__typename", JStr (xs "Query"))];
+                  er_errors := [{| ge_class := EcNull; ge_path := [PsKey (xs "a"); PsKey (xs "l"); PsIdx 1%N] |};
+                                {| ge_class := EcLeaf; ge_path := [PsKey (xs "b"); PsKey (xs "n")] |}] |} /\
+  ref_execute x_nv_schema x_nv_doc [] x_nv_world = fst (execute_request x_nv_schema x_nv_doc [] x_nv_world).
+Proof. exact c26_nonvacuous. Qed.
 
 (* The full statement is false of the faithful model: with `interface I { f: Int }  type T implements I { f: Int! }
    type Query { i: I }`, the document `{ i { f } }` and a T whose f resolves to null, the code's response has null
